@@ -236,6 +236,21 @@ func ruleC14(c *Check) {
 					}
 				}
 			}
+			// the check sits in a helper that is told whether to enforce it ("available and updated"), so the path never
+			// branches on the availability itself: what the helper's return has established entails ¬Available ∨ checked
+			if !ok && !creation && !avW {
+				av := field("ServiceBinding", "Available", L)
+				cands := []Fact{need}
+				if L.Op == "res" && len(L.A) == 2 && len(L.A[1].A) == 2 && setP == nil {
+					P2 := fmt.Sprintf("(%s %s %s)", gPricing.Name, L.A[1].A[0], L.A[1].A[1])
+					cands = append(cands, Fact{T: mk("sdk.Coins.IsAllGTE", dep, mk(md.Name, parseTerm(P2)))})
+				}
+				for _, cand := range cands {
+					if pp.Facts.Holds(mk("||", mk("!", av), cand.T), true) {
+						ok, need = true, cand
+					}
+				}
+			}
 			what := "update"
 			if creation {
 				what = "create"
